@@ -411,21 +411,17 @@ theorem assoc?_units_fn {β} (f : Nat → β) : ∀ (m o : Nat),
         rw [if_pos hn, if_pos ⟨by omega, by omega⟩, this]
       · rw [if_neg hn, if_neg (by omega)]
 
-/-- **Decoded lines are CPython's lines (`co_lnotab`, 3.7-3.9).**  For every lnotab byte string with even address deltas
-    (any line deltas, zero-width rows, any number of rows): `to_line_mapping` terminates and succeeds, and for every
+/-- **Decoded lines are CPython's lines (`co_lnotab`, 3.7-3.9).**  For every lnotab byte string whose rows, once the
+    255-byte continuation rows are merged (`collapse_items`), have even address deltas (any line deltas, zero-width rows,
+    any number of rows): `to_line_mapping` terminates and succeeds, and for every
     even offset below the code length the decoded mapping has exactly the line `PyCode_Addr2Line` computes. -/
 theorem decoded_lines_old (b : List Nat) (n : Nat) (heven : b.length % 2 = 0) (hbytes : ∀ x ∈ b, x < 256)
-    (hbc : ∀ x ∈ bytesToItems b, x.bc % 2 = 0) :
+    (hbc : ∀ cs, collapse false (bytesToItems b) = some cs → ∀ c ∈ cs, c.bc % 2 = 0) :
     ∃ lm, toLineMapping false b n = .ok lm ∧
       ∀ o, o % 2 = 0 → o < n → assoc? o lm.lines = some (some (Spec.lineOfOld b o 0 0)) := by
   have hv := bytesToItems_validRow false b hbytes (fun h => by cases h)
   obtain ⟨cs, hc, he, hsome⟩ := expand_collapse false (bytesToItems b) hv
-  have hcs : ∀ c ∈ cs, c.bc % 2 = 0 := by
-    apply collapseC_even false _ cs hc
-    intro x hx
-    simp only [List.mem_map] at hx
-    obtain ⟨y, hy, rfl⟩ := hx
-    simpa [toC] using hbc y hy
+  have hcs : ∀ c ∈ cs, c.bc % 2 = 0 := hbc cs hc
   have hinit : OldInv cs ⟨cs, 0, 0, 0, [], []⟩ :=
     ⟨⟨[], by simp, by simp [sumB], by simp [sumL]⟩, rfl, Nat.le_refl _, by intro it rest _; simp, by simp⟩
   obtain ⟨s', hl, hinv, hoff⟩ := oldLoop_spec cs hcs n (n + sumBc cs + 4) _ hinit (by rw [sumBc_eq_sumB]; simp; omega)
